@@ -468,7 +468,7 @@ pub fn gen_udp_plan_for(g: &mut Gen, thorough: bool, max_payload: usize, edge: O
     UdpPlan { apps, targets, loss_pm: 0, dup_pm: 0, reorder_pm: 0, second_client_password: None }
 }
 
-/// README rows that carry UDP: Shadowsocks over udp (7 ciphers, with/without users), VMess over tcp/tls/ws/wss, Trojan over tls/wss.
+/// README rows that carry UDP: Shadowsocks over udp (7 ciphers, with/without users), VMess over tcp/tls/ws/wss/quic, Trojan over tls/wss/quic.
 pub fn udp_cells() -> Vec<(Proto, &'static str, Transport, usize)> {
     let mut v = Vec::new();
     for c in SS_CIPHERS {
@@ -484,6 +484,10 @@ pub fn udp_cells() -> Vec<(Proto, &'static str, Transport, usize)> {
     }
     v.push((Proto::Trojan, "aes-128-gcm", Transport::Tls, 0));
     v.push((Proto::Trojan, "aes-128-gcm", Transport::Wss, 0));
+    for c in VMESS_CIPHERS {
+        v.push((Proto::Vmess, c, Transport::Quic, 0));
+    }
+    v.push((Proto::Trojan, "aes-128-gcm", Transport::Quic, 0));
     v
 }
 
